@@ -20,7 +20,6 @@ oracle: an independent Python transcription of the property statement
 import hashlib
 import importlib
 import json
-import multiprocessing
 import os
 import random
 import sys
@@ -915,15 +914,50 @@ def check_variant(R, prog, var, res, tag, model_out):
     R.d['traces_validated_against_impl'] += 1
 
 
+def run_workers(items, work, nproc, timeout=600):
+    """one subprocess per program (a crash or hang of generated code must not
+    take the harness down), at most nproc at a time"""
+    import subprocess
+    pending = list(enumerate(items))
+    running = {}
+    outs = [None] * len(items)
+    uid = '%d_%d' % (os.getpid(), int(time.time() * 1000) % 100000)
+    while pending or running:
+        while pending and len(running) < nproc:
+            k, (p, vs) = pending.pop(0)
+            tf = os.path.join(work, 'task_%s_%d.json' % (uid, k))
+            of = os.path.join(work, 'out_%s_%d.json' % (uid, k))
+            with open(tf, 'w') as fh:
+                json.dump([k, p, vs, work], fh)
+            pr = subprocess.Popen([sys.executable, os.path.abspath(__file__),
+                                   '--worker-task', tf, '--worker-out', of],
+                                  stdout=subprocess.PIPE, stderr=subprocess.STDOUT)
+            running[k] = (pr, of, time.time())
+        time.sleep(0.2)
+        for k in list(running):
+            pr, of, t0 = running[k]
+            rc = pr.poll()
+            if rc is None:
+                if time.time() - t0 > timeout:
+                    pr.kill()
+                    outs[k] = {'idx': k, 'error': 'worker timed out (generated code hangs?)'}
+                    del running[k]
+                continue
+            log = pr.stdout.read().decode(errors='replace')
+            if rc == 0 and os.path.exists(of):
+                outs[k] = json.load(open(of))
+            else:
+                outs[k] = {'idx': k, 'error': 'worker exit code %s: %s' % (rc, log[-3000:])}
+            del running[k]
+    return outs
+
+
 def run_batch(R, items, work, nproc, tag0=0):
     """items: [(prog, [variants])]"""
-    tasks = [(k, p, vs, work) for k, (p, vs) in enumerate(items)]
     t0 = time.time()
-    ctx = multiprocessing.get_context('fork')
-    with ctx.Pool(min(nproc, max(1, len(tasks))), maxtasksperchild=1) as pool:
-        outs = pool.map(worker, tasks, chunksize=1)
+    outs = run_workers(items, work, nproc)
     R.note('%d programs compiled and run in %.0fs (compile times %s)' % (
-        len(tasks), time.time() - t0,
+        len(items), time.time() - t0,
         ' '.join('%.0f' % o.get('t_compile', -1) for o in outs)))
     lines, index = [], []
     for o in outs:
@@ -1008,6 +1042,15 @@ def corpus_excluded():
 
 
 def main():
+    if '--worker-task' in sys.argv:
+        tf = sys.argv[sys.argv.index('--worker-task') + 1]
+        of = sys.argv[sys.argv.index('--worker-out') + 1]
+        k, p, vs, work = json.load(open(tf))
+        sys.path.insert(0, work)
+        o = worker((k, p, vs, work))
+        with open(of, 'w') as fh:
+            json.dump(o, fh)
+        sys.exit(0)
     a = H.args()
     R = H.Result(
         'case = (program, oracle variant): program = flat list / groups / one level of '
